@@ -211,6 +211,12 @@ impl<'tcx> Walker<'tcx> {
                 }
             }
             ty::InstanceKind::DropGlue(_, None) => return,
+            ty::InstanceKind::DropGlue(_, Some(t)) => {
+                // an explicit drop_in_place::<T>() call: building the shim's MIR ICEs when T mentions
+                // a (const) parameter of the root, so the glue is traversed structurally instead
+                self.visit_drop(t, eff, seen);
+                return;
+            }
             _ => {}
         }
         // walk the body
